@@ -250,8 +250,9 @@ def evaluate(s, val):
 GRID = [0, 1, 2, 3, 5, 7, 8, 9, 16, 31, 32, 33, 63, 64, 65, 100, 255, 256, 1000]
 
 
-def differ_witness(a, b, max_points=4000):
-    """None if a and b canonicalise equally or agree on the whole grid; else a valuation where they differ."""
+def differ_witness(a, b, max_points=4000, where=None):
+    """None if a and b canonicalise equally or agree on the whole grid; else a valuation where they differ.
+    where: optional predicate on the valuation restricting the domain of the comparison."""
     if canon(a) == canon(b):
         return None
     syms = sorted(atoms(a) | atoms(b), key=repr)
@@ -268,6 +269,9 @@ def differ_witness(a, b, max_points=4000):
         if n > max_points:
             break
         val = dict(zip(syms, vals))
+        if where is not None and not where(val):
+            n -= 1
+            continue
         va, vb = evaluate(a, val), evaluate(b, val)
         if va is None or vb is None:
             continue
